@@ -1,8 +1,8 @@
 //! Stateless-with-fingerprints explorer for the cluster model.
 //!
 //! A state is the event history that reaches it; `build(history)` re-executes it on fresh
-//! objects. DFS keeps the live cluster for the last child of every node and re-executes for the
-//! other siblings. A visited table keyed by a 128-bit fingerprint stores the best
+//! objects. DFS re-executes the history for every child (no live cluster is kept across the
+//! exploration of a sibling, see `dfs`). A visited table keyed by a 128-bit fingerprint stores the best
 //! (depth, deviations) budget a state was expanded with; a state is expanded again only when it
 //! is reached with a strictly better budget.
 
@@ -186,26 +186,19 @@ impl Explorer {
                 }
                 return Ok(());
             }
-            // Timed mode: all clusters of a worker share one paused tokio clock, and a cluster
-            // that sits idle while its siblings let virtual time pass would find its own timers
-            // overdue. So a timed cluster is never kept across another cluster's execution:
-            // every child is rebuilt from the history.
-            let mut live = if self.opts.timed {
-                drop(cluster);
-                None
-            } else {
-                Some(cluster)
-            };
-            let n = enabled.len();
-            for (i, (ev, cost)) in enabled.into_iter().enumerate() {
+            // All clusters of a worker share one paused tokio clock (every quiescence wait lets
+            // 1 ms of virtual time pass), and a cluster that sat idle while the subtrees of its
+            // siblings were explored would find its own timers overdue - in timed mode at once,
+            // in untimed mode after about an hour of accumulated virtual time (the 'never fires'
+            // deadlines of the untimed configuration), i.e. after minutes of exploration. So a
+            // cluster is never kept across another cluster's execution: every child is rebuilt
+            // from the history, and every explored state is a function of its history alone.
+            drop(cluster);
+            for (ev, cost) in enabled.into_iter() {
                 if self.shared.stop.load(Ordering::Relaxed) {
                     return Ok(());
                 }
-                let mut c = if i + 1 == n && live.is_some() {
-                    live.take().unwrap()
-                } else {
-                    build(&self.opts, &self.scratch, history, Some(&self.shared)).await?
-                };
+                let mut c = build(&self.opts, &self.scratch, history, Some(&self.shared)).await?;
                 let before = c.oracle.violations.len();
                 crate::simkit::cluster_ext::apply_any(&mut c, &ev)
                     .await
